@@ -3,7 +3,7 @@
    Encodings (harness/props/zipwire.go produces the same for the implementation):
      file    L[S path; I lstat_ok; I mode(0 regular,1 dir,2 symlink,3 other); I size;
                I open_ok; S content; I ge124]
-     entry   L[S name; I usize; S content]
+     entry   L[S name; I usize; S content; I header-mode class]
      node    L[I 0; I mode; S content; I ge124]  |  L[I 1; L[ L[S name; node] ... ]]
      fs      L[ L[S path; I kind(0 file,1 dir); S content] ... ]
      report  L[ L[S valid...]; L[L[S path; S kind]...] omitted; L[...] invalid; I sizeerr ]
@@ -69,7 +69,7 @@ Definition file_of_val (v : val) : option file :=
 
 Definition entry_of_val (v : val) : option entry :=
   match v with
-  | VL [VS n; VI u; VS c] => Some (mkEntry n u c)
+  | VL [VS n; VI u; VS c; VI m] => Some (mkEntry n u c m)
   | _ => None
   end.
 
